@@ -435,6 +435,8 @@ func (e *Engine) modularCall(s *State, fr *Frame, c *FuncContract, key string, s
 	// havoc
 	w := newWriteSet()
 	if c.Flags["pure"] != "" {
+	} else if c.Flags["preserves"] != "" {
+		w.setAllExcept("preserves clause of "+shortKey(key), e.preservedKeys(c))
 	} else if c.Flags["assigns"] != "" {
 		for _, a := range c.Assigns {
 			e.resolveAssign(s, env, a, w)
